@@ -100,10 +100,11 @@ mutual
     | .array _ none => []
     | .array e (some n) => rep n (Abi.tinfo T (erase e)).size (flattenC T merge e)
     | .su u p fs =>
-      flattenFields T merge fs (Abi.layout T u p (Abi.decls T (eraseF fs))).members none
-  /-- `last`: storage unit `(offset, size)` of the previous member if that was a bit-field of a
-  struct (used only when `merge`) -/
-  def flattenFields (T : Target) (merge : Bool) : AFields → List Member → Option (Nat × Nat) → List Fld
+      flattenFields T merge (merge && !u) fs (Abi.layout T u p (Abi.decls T (eraseF fs))).members none
+  /-- `here`: merge the bit-fields of this member list (a struct, and `merge`);
+  `last`: storage unit `(offset, size)` of the previous member if that was a bit-field -/
+  def flattenFields (T : Target) (merge here : Bool) :
+      AFields → List Member → Option (Nat × Nat) → List Fld
     | .nil, _, _ => []
     | .cons name ty _ w rest, ms, last =>
       if name.isSome || w.isNone then
@@ -111,11 +112,11 @@ mutual
         | [] => []
         | m :: ms' =>
           match w with
-          | none => shift m.offset (flattenC T merge ty) ++ flattenFields T merge rest ms' none
+          | none => shift m.offset (flattenC T merge ty) ++ flattenFields T merge here rest ms' none
           | some _ =>
-            (if merge && last == some (m.offset, m.tsize) then [] else [⟨m.offset, m.tsize, .int⟩]) ++
-              flattenFields T merge rest ms' (some (m.offset, m.tsize))
-      else flattenFields T merge rest ms last
+            (if here && last == some (m.offset, m.tsize) then [] else [⟨m.offset, m.tsize, .int⟩]) ++
+              flattenFields T merge here rest ms' (some (m.offset, m.tsize))
+      else flattenFields T merge here rest ms last
 end
 
 /-! ## "The same fields up to merging of integer fields" -/
@@ -163,10 +164,10 @@ def existsPairB {α : Type} (r : α → α → Bool) : List α → Bool
 def smallerUnit (a b : Member) : Bool :=
   a.width.isSome && decide (b.offset ≤ a.offset) && decide (b.tsize < a.tsize)
 
-/-- a later member starts inside the storage unit of the bit-field `a` and ends outside it -/
-def sticksOut (a b : Member) : Bool :=
-  a.width.isSome && decide (a.offset < b.offset) && decide (b.offset < a.offset + a.tsize) &&
-    decide (a.offset + a.tsize < b.offset + b.tsize)
+/-- a later member starts inside the storage unit of the bit-field `a` (it is dropped from the
+descriptor: harmless only if it is an integer member that also ends inside the unit) -/
+def startsInside (a b : Member) : Bool :=
+  a.width.isSome && decide (a.offset < b.offset) && decide (b.offset < a.offset + a.tsize)
 
 /-- the storage unit of the bit-field `b` begins before the end of the earlier member `a` -/
 def overlapsEarlier (a b : Member) : Bool :=
@@ -182,7 +183,7 @@ def nodeClasses (isUnion pack : Bool) (ds : List Decl) (ms : List Member) : List
   (if ds.any Decl.isUnnamedBf then ["unnamed-bitfield"] else []) ++
   (if ds.any (fun d => d.ty.incomplete || d.ty.flexible) then ["flexible"] else []) ++
   (if !isUnion && existsPairB smallerUnit ms then ["bitfield-smaller-unit"] else []) ++
-  (if !isUnion && existsPairB sticksOut ms then ["bitfield-unit-skips-member"] else []) ++
+  (if !isUnion && existsPairB startsInside ms then ["bitfield-unit-skips-member"] else []) ++
   (if !isUnion && existsPairB overlapsEarlier ms then ["bitfield-unit-overlap"] else []) ++
   (if !isUnion && !pairwiseB unitRel ms then ["unit-shared"] else [])
 
